@@ -1475,6 +1475,8 @@ class NiftiWrapper(object):
                 slices[dim] = slice(idx, idx+1)
 
             split_data = data[tuple(slices)].copy()
+            while split_data.ndim > 3 and split_data.shape[-1] == 1:
+                split_data = split_data[..., 0]
 
             #Update the translation in any affines if needed
             if not trans_update is None and idx != 0:
